@@ -71,6 +71,8 @@ impl Generator {
         for mutator in &self.mutators {
             if let Some(mutated) = mutator.mutate_int(result, source, self.mutation_rate) {
                 result = mutated;
+                #[cfg(feature = "verif-hooks")]
+                super::verif::trace_mutated('i');
                 break; // Apply only one mutation
             }
         }
@@ -98,6 +100,8 @@ impl Generator {
         for mutator in &self.mutators {
             if let Some(mutated) = mutator.mutate_long(result, source, self.mutation_rate) {
                 result = mutated;
+                #[cfg(feature = "verif-hooks")]
+                super::verif::trace_mutated('i');
                 break;
             }
         }
@@ -124,6 +128,8 @@ impl Generator {
         for mutator in &self.mutators {
             if let Some(mutated) = mutator.mutate_float(result, source, self.mutation_rate) {
                 result = mutated;
+                #[cfg(feature = "verif-hooks")]
+                super::verif::trace_mutated('f');
                 break;
             }
         }
@@ -152,6 +158,8 @@ impl Generator {
             if let Some(mutated) = mutator.mutate_string(result.clone(), source, self.mutation_rate)
             {
                 result = mutated;
+                #[cfg(feature = "verif-hooks")]
+                super::verif::trace_mutated('s');
                 break;
             }
         }
@@ -180,6 +188,8 @@ impl Generator {
             if let Some(mutated) = mutator.mutate_bytes(result.clone(), source, self.mutation_rate)
             {
                 result = mutated;
+                #[cfg(feature = "verif-hooks")]
+                super::verif::trace_mutated('y');
                 break;
             }
         }
@@ -207,6 +217,8 @@ impl Generator {
         for mutator in &self.mutators {
             if let Some(mutated) = mutator.mutate_memo_index(result, source, self.mutation_rate) {
                 result = mutated;
+                #[cfg(feature = "verif-hooks")]
+                super::verif::trace_mutated('m');
                 break;
             }
         }
@@ -275,8 +287,14 @@ impl Generator {
         }
 
         // Let each mutator post-process
+        #[cfg(feature = "verif-hooks")]
+        let verif_output_before = self.output.clone();
         for mutator in &self.mutators {
             mutator.post_process(&snapshot, &mut self.output, source, self.mutation_rate);
+        }
+        #[cfg(feature = "verif-hooks")]
+        if verif_output_before != self.output {
+            super::verif::trace_rewritten();
         }
     }
 }
